@@ -87,6 +87,12 @@ claim("C19",
       "TLA+ specs DER/KeyEnc : TLC exhaustive on bounded instances, C->S trace validation of real encoders/decoders, OpenSSL oracle relation", "DESIGN.md section 4 C19, section 6")
 
 
+claim("C14",
+      "TLC shows the reader specification total over ARBITRARY cell strings (all strings up to the bound over an alphabet with integers, huge values, MAC tokens, garbage; arbitrary continuations of every prefix of valid files): outcome = Accept or a named rejection clause reported by the library as format error / ValueError. A seeded fuzz corpus (mutations, deletions, duplications, line reorderings of valid BF3/BEC2/BF2 files, crafted near-valid files aimed at the unguarded sites, random text) goes through every parsing entry point with decryptor sets none / public-only / private / wrong key; TLC judges every recorded call (allowed exception class by MRO, no hang, crypto registry unchanged) and, for BF3/BEC2, the accept/reject verdict of the concrete specification on the same bytes.",
+      "Trusted: TLC; time limit per call as 'hangs'; registry identity = the four module globals of bec2format.crypto; termination of the recursive reader definitions is witnessed by TLC evaluating them (no separate liveness formula).",
+      "TLA+ spec MC_Parsers (totality over arbitrary strings) : TLC exhaustive; C->S trace validation of a fuzz corpus through all entry points", "DESIGN.md section 4 C14")
+
+
 def main():
     props = [json.loads(l) for l in open(os.path.join(VERIF, "properties.jsonl"))]
     m = {"version": 1,
